@@ -9,7 +9,7 @@ CHECKS = {
    note="trusted: lspverif/refmodel.py reading of lsp.json; optional non-special `p: null` == absent; generator depth<=5, collections<=3; self-recursive positions pinned to 25/100 levels, and grafted / payload values 600 levels deep with a metamorphic oracle (known finding KF-nesting-beyond-recursion-limit)", ref="3/C01"),
  "C02": dict(cat="exploration", technique="property-based testing (Hypothesis): constructor path vs exact normal form + fix-point",
    text="Hypothesis-generated typed values are turned into nested constructor calls; the serialised object must equal the normal form NF(tv) computed from lsp.json exactly (both directions), and parse+serialise of that output must be a fix-point. Sampling with measured coverage.",
-   note="trusted: refmodel/NF definition; closed-enum constructor arguments are members (the annotation demands it), open-enum ones member or raw value", ref="3/C02"),
+   note="trusted: refmodel/NF definition; enumeration-typed constructor arguments are members or the plain values of j (both are drawn)", ref="3/C02"),
  "C03": dict(cat="exploration", technique="property-based testing (Hypothesis): metamodel-directed instance-of walk",
    text="Every successfully structured generated value is walked under the metamodel type: classes, sequences, tuples, maps, base types, enum members, and at unions an alternative the input was valid for. Sampling with measured coverage.",
    note="trusted: refmodel validity (non-strict) to decide which alternatives the input was valid for", ref="3/C03"),
